@@ -654,7 +654,9 @@ class HttpParser(abc.ABC, Generic[_MsgT]):
         # encoding
         enc = headers.get(hdrs.CONTENT_ENCODING, "")
         if enc.isascii() and enc.lower() in {"gzip", "deflate", "br", "zstd"}:
-            encoding = enc
+            # content-coding tokens are case-insensitive; the decoders are
+            # selected by the lower-case name
+            encoding = enc.lower()
 
         # chunking
         te = headers.get(hdrs.TRANSFER_ENCODING)
